@@ -166,6 +166,105 @@ Proof.
   rewrite E. apply A; try assumption; [rewrite xdisciplined_enc|rewrite xfams_ok_enc]; assumption.
 Qed.
 
+(* ---------- how the octets are cut into deliveries does not matter ---------- *)
+Lemma fuel_irrelevant fuel : forall fuel' b, (length b < fuel)%nat -> (length b < fuel')%nat ->
+  BmpWire.dec_stream fuel b = BmpWire.dec_stream fuel' b /\ rest_stream fuel b = rest_stream fuel' b.
+Proof.
+  induction fuel as [|fuel IH]; intros fuel' b H H'; [lia|]. destruct fuel' as [|fuel']; [lia|].
+  cbn [BmpWire.dec_stream rest_stream].
+  destruct b as [|v [|l3 [|l2 [|l1 [|l0 r]]]]]; try (split; reflexivity).
+  destruct (BmpWire.u32 l3 l2 l1 l0 <? 5) eqn:E5; [split; reflexivity|].
+  destruct (BgpModel.lenN (v :: l3 :: l2 :: l1 :: l0 :: r) <? BmpWire.u32 l3 l2 l1 l0); [split; reflexivity|].
+  destruct (BgpModel.take_n _ _) as [[fr rest]|] eqn:Ht; [|split; reflexivity].
+  apply BgpProofs.take_n_inv in Ht as [Hb Hl]. apply N.ltb_ge in E5.
+  assert (Hr : (length rest + 5 <= length (v :: l3 :: l2 :: l1 :: l0 :: r))%nat).
+  { rewrite Hb, app_length. unfold BgpModel.lenN in Hl. lia. }
+  destruct (IH fuel' rest) as [-> ->]; [lia..|]. split; reflexivity.
+Qed.
+
+Lemma stream_app_gen fuel : forall a b, (length a < fuel)%nat ->
+  (BmpWire.stream (a ++ b), leftover (a ++ b)) =
+  let '(i1, e1) := BmpWire.dec_stream fuel a in
+  match e1 with
+  | BmpWire.SShort => ((i1, BmpWire.SShort), [])
+  | _ => let '(i2, e2) := BmpWire.stream (rest_stream fuel a ++ b) in
+         ((i1 ++ i2, e2), leftover (rest_stream fuel a ++ b))
+  end.
+Proof.
+  induction fuel as [|fuel IH]; intros a b Hf; [lia|].
+  destruct a as [|v [|l3 [|l2 [|l1 [|l0 r]]]]]; cbn [BmpWire.dec_stream rest_stream app].
+  1-5: destruct (BmpWire.stream _) as [i2 e2]; reflexivity.
+  destruct (BmpWire.u32 l3 l2 l1 l0 <? 5) eqn:E5.
+  { rewrite BmpWireProofs.stream_short_length by (apply N.ltb_lt, E5).
+    unfold leftover. cbn [length rest_stream]. rewrite E5. reflexivity. }
+  destruct (BgpModel.lenN (v :: l3 :: l2 :: l1 :: l0 :: r) <? BmpWire.u32 l3 l2 l1 l0) eqn:Ecut.
+  { destruct (BmpWire.stream _) as [i2 e2]. reflexivity. }
+  destruct (BgpModel.take_n _ _) as [[fr rest]|] eqn:Ht.
+  2: { destruct (BmpWire.stream _) as [i2 e2]. reflexivity. }
+  apply BgpProofs.take_n_inv in Ht as [Ha Hl]. apply N.ltb_ge in E5.
+  assert (exists r', fr = v :: l3 :: l2 :: l1 :: l0 :: r') as [r' Hfr].
+  { unfold BgpModel.lenN in Hl. destruct fr as [|x0 [|x1 [|x2 [|x3 [|x4 r']]]]]; cbn [length] in Hl; try lia.
+    cbn [app] in Ha. injection Ha as -> -> -> -> -> _. eexists; reflexivity. }
+  assert (Hu : BmpWire.u32 l3 l2 l1 l0 = BgpModel.lenN fr) by (symmetry; exact Hl).
+  assert (H5 : (5 <= length fr)%nat) by (unfold BgpModel.lenN in Hl; lia).
+  assert (Hlen : (length (v :: l3 :: l2 :: l1 :: l0 :: r) = length fr + length rest)%nat) by (rewrite Ha; apply app_length).
+  replace (v :: l3 :: l2 :: l1 :: l0 :: r ++ b) with (fr ++ (rest ++ b)) by (rewrite app_assoc, <- Ha; reflexivity).
+  unfold BmpWire.stream at 1, leftover at 1.
+  rewrite (BmpWireProofs.dec_stream_frame _ fr (rest ++ b) v l3 l2 l1 l0 r' Hfr Hu).
+  rewrite (rest_stream_frame _ fr (rest ++ b) v l3 l2 l1 l0 r' Hfr Hu).
+  assert (E1 : BmpWire.dec_stream (length (fr ++ rest ++ b)) (rest ++ b) = BmpWire.stream (rest ++ b)).
+  { unfold BmpWire.stream. apply fuel_irrelevant; rewrite !app_length; lia. }
+  assert (E2 : rest_stream (length (fr ++ rest ++ b)) (rest ++ b) = leftover (rest ++ b)).
+  { unfold leftover. apply fuel_irrelevant; rewrite !app_length; lia. }
+  rewrite E1, E2. pose proof (IH rest b ltac:(lia)) as IHr.
+  destruct (BmpWire.dec_stream fuel rest) as [i1 e1].
+  destruct e1; [destruct (BmpWire.stream (rest_stream fuel rest ++ b)) as [i2 e2]| |
+                destruct (BmpWire.stream (rest_stream fuel rest ++ b)) as [i2 e2]];
+    injection IHr as -> ->; reflexivity.
+Qed.
+
+(* one delivery of a ++ b = the delivery of a, then the delivery of what a left pending followed by b *)
+Theorem deliver_app k a b : (BmpWire.stream a).2 <> BmpWire.SShort ->
+  deliver k (a ++ b) = ((deliver k a).1 ++ (deliver k ((deliver k a).2 ++ b)).1, (deliver k ((deliver k a).2 ++ b)).2).
+Proof.
+  intros Hs. pose proof (stream_app_gen (S (length a)) a b ltac:(lia)) as H.
+  unfold deliver. fold (BmpWire.stream a) in H. fold (leftover a) in H.
+  destruct (BmpWire.stream a) as [i1 e1]. cbn [fst snd] in *.
+  destruct e1; [|congruence|]; destruct (BmpWire.stream (leftover a ++ b)) as [i2 e2];
+    injection H as -> ->; cbn [end_ops fst snd]; rewrite flat_map_app, app_nil_r, app_assoc; reflexivity.
+Qed.
+
+(* a length field below 5 ends the connection whatever follows *)
+Theorem deliver_short k a b : (BmpWire.stream a).2 = BmpWire.SShort -> deliver k (a ++ b) = deliver k a.
+Proof.
+  intros Hs. pose proof (stream_app_gen (S (length a)) a b ltac:(lia)) as H.
+  pose proof (stream_app_gen (S (length a)) a [] ltac:(lia)) as H0. rewrite app_nil_r in H0.
+  unfold deliver. fold (BmpWire.stream a) in H, H0.
+  destruct (BmpWire.stream a) as [i1 e1]. cbn [snd] in Hs. subst e1.
+  injection H as -> ->. injection H0 as ->. reflexivity.
+Qed.
+
+Lemma wire_run_ext h : forall pd pd', (forall k, pd k = pd' k) -> wire_run pd h = wire_run pd' h.
+Proof.
+  induction h as [|x h IH]; intros pd pd' E; [reflexivity|]. cbn [wire_run].
+  destruct x as [o|k bs]; cbn [xstep].
+  - f_equal. apply IH. intros k. destruct o; try apply E; unfold pend_set; destruct (N.eqb k _); auto.
+  - rewrite (E k). destruct (deliver k (pd' k ++ bs)) as [ops rest]. f_equal. apply IH.
+    intros j. unfold pend_set. destruct (N.eqb j k); auto.
+Qed.
+
+(* two consecutive deliveries of one connection are the delivery of their concatenation: the decoded history
+   does not depend on where the octets are cut (TCP segmentation) *)
+Theorem deliveries_join pd k a b h : (BmpWire.stream (pd k ++ a)).2 <> BmpWire.SShort ->
+  wire_run pd (XOctets k a :: XOctets k b :: h) = wire_run pd (XOctets k (a ++ b) :: h).
+Proof.
+  intros Hs. cbn [wire_run xstep]. rewrite (app_assoc (pd k) a b), (deliver_app k (pd k ++ a) b Hs).
+  destruct (deliver k (pd k ++ a)) as [ops1 r1]. cbn [fst snd].
+  assert (Ek : pend_set pd k r1 k = r1) by (unfold pend_set; rewrite N.eqb_refl; reflexivity). rewrite Ek.
+  destruct (deliver k (r1 ++ b)) as [ops2 r2]. cbn [fst snd]. rewrite <- app_assoc. do 2 f_equal.
+  apply wire_run_ext. intros j. unfold pend_set. destruct (N.eqb j k); reflexivity.
+Qed.
+
 (* ---------- the concrete history of Props_C01.v ---------- *)
 Lemma wire_example_ok :
   xdisciplined wire_ex_hist = true /\ xfams_ok wire_ex_hist = true /\
